@@ -1,10 +1,439 @@
-"""fxpv.strs -- symbolic strings (placeholder until the SStr proxy is built)."""
-from .core import Undecided
+"""fxpv.strs -- SStr: a symbolic string of CONCRETE length whose characters are literals or symbolic
+binary / hexadecimal digits.  It is a `str` subclass (so `isinstance(x, str)` holds inside the library) whose
+real payload is a poison marker: any leak of the payload into a concrete string is detectable.
+
+Only the methods the library uses are implemented; everything else raises Undecided (fail closed).
+"""
+import builtins
+import numpy as _np
+import z3
+from . import core
+from .core import SNum, SBool, Undecided, CheckerError, mkbool
+
+POISON = '\x00\x01<symbolic-string>\x01\x00'
+HEXU = '0123456789ABCDEF'
+HEXL = '0123456789abcdef'
+
+
+class Dig:
+    """one symbolic digit character: base 2 (term in {0,1}) or base 16 (term in 0..15, upper/lower case)"""
+    __slots__ = ('base', 't', 'upper', 'src')
+    def __init__(self, base, t, upper=True, src=None):
+        # src = (term, index): this character is digit number `index` (weight base**index) of the non-negative Int `term`
+        self.base = base; self.t = t; self.upper = upper; self.src = src
+    def alphabet(self):
+        if self.base == 2:
+            return '01'
+        return HEXU if self.upper else HEXL
+    def value_of_char(self, ch):
+        """the digit value if `ch` can be this character, else None"""
+        a = self.alphabet()
+        i = a.find(ch)
+        return i if i >= 0 else None
+    def __repr__(self):
+        return '<%s:%s>' % ('b' if self.base == 2 else 'h', self.t)
+
 
 def is_sstr(x):
-    return False
+    return isinstance(x, SStr)
 
-def _no(*a, **k):
-    raise Undecided('symbolic strings not modelled yet')
 
-int_of = float_of = bin_of = hex_of = set_of = format_ = np_binary_repr = np_base_repr = _no
+def _items_of(x):
+    if isinstance(x, SStr):
+        return list(x.items)
+    if isinstance(x, str):
+        if POISON in x:
+            raise Undecided('poisoned concrete string (proxy leak)')
+        return list(x)
+    raise TypeError('expected str')
+
+
+def mk(items):
+    items = list(items)
+    if all(isinstance(i, str) for i in items):
+        return ''.join(items)
+    return SStr(items)
+
+
+class SStr(str):
+    def __new__(cls, items):
+        obj = str.__new__(cls, POISON)
+        obj.items = tuple(items)
+        return obj
+
+    # ---- size / access ---------------------------------------------------------------------------------
+    def __len__(self):
+        return len(self.items)
+    def __getitem__(self, i):
+        if isinstance(i, slice):
+            return mk(self.items[i])
+        if isinstance(i, (SNum, SBool)):
+            raise Undecided('symbolic string index')
+        return mk([self.items[i]])
+    def __iter__(self):
+        for it in self.items:
+            yield mk([it])
+    def __str__(self):
+        return self
+    def __repr__(self):
+        return 'SStr(%r)' % (list(self.items),)
+    def __format__(self, spec):
+        raise Undecided('formatting a symbolic string')
+    def __hash__(self):
+        raise Undecided('hash of a symbolic string')
+    def __deepcopy__(self, memo):
+        return self
+    def __copy__(self):
+        return self
+    def __bool__(self):
+        return len(self.items) > 0
+
+    # ---- concatenation -----------------------------------------------------------------------------------
+    def __add__(self, o):
+        if not isinstance(o, str):
+            return NotImplemented
+        return mk(list(self.items) + _items_of(o))
+    def __radd__(self, o):
+        if not isinstance(o, str):
+            return NotImplemented
+        return mk(_items_of(o) + list(self.items))
+    def __mul__(self, n):
+        if not isinstance(n, int):
+            raise Undecided('symbolic repetition count')
+        return mk(list(self.items) * n)
+    __rmul__ = __mul__
+
+    # ---- comparison --------------------------------------------------------------------------------------
+    def _eq_term(self, o):
+        oi = _items_of(o)
+        if len(oi) != len(self.items):
+            return z3.BoolVal(False)
+        conj = []
+        for a, b in zip(self.items, oi):
+            c = _char_eq(a, b)
+            if c is False:
+                return z3.BoolVal(False)
+            if c is not True:
+                conj.append(c)
+        return z3.And(*conj) if conj else z3.BoolVal(True)
+    def __eq__(self, o):
+        if not isinstance(o, str):
+            return False
+        return mkbool(self._eq_term(o))
+    def __ne__(self, o):
+        if not isinstance(o, str):
+            return True
+        return mkbool(z3.Not(self._eq_term(o)))
+    def __lt__(self, o): raise Undecided('ordering of symbolic strings')
+    __le__ = __gt__ = __ge__ = __lt__
+
+    def __contains__(self, sub):
+        sub_items = _items_of(sub)
+        if len(sub_items) == 0:
+            return True
+        n = len(sub_items)
+        maybe = []
+        for i in range(len(self.items) - n + 1):
+            conds = [_char_eq(a, b) for a, b in zip(self.items[i:i + n], sub_items)]
+            if any(c is False for c in conds):
+                continue
+            cs = [c for c in conds if c is not True]
+            if not cs:
+                return True
+            maybe.append(z3.And(*cs))
+        if not maybe:
+            return False
+        # python's `in` must return a bool: fork
+        return bool(mkbool(z3.Or(*maybe)))
+
+    def find(self, sub, *a):
+        if a:
+            raise Undecided('str.find with bounds')
+        sub_items = _items_of(sub)
+        n = len(sub_items)
+        for i in range(len(self.items) - n + 1):
+            conds = [_char_eq(x, y) for x, y in zip(self.items[i:i + n], sub_items)]
+            if any(c is False for c in conds):
+                continue
+            if all(c is True for c in conds):
+                return i
+            if bool(mkbool(z3.And(*[c for c in conds if c is not True]))):
+                return i
+        return -1
+
+    def startswith(self, p, *a):
+        p = _items_of(p)
+        return bool(mk(self.items[:len(p)]) == mk(p)) if len(p) <= len(self.items) else False
+    def endswith(self, p, *a):
+        p = _items_of(p)
+        return bool(mk(self.items[len(self.items) - len(p):]) == mk(p)) if len(p) <= len(self.items) else False
+
+    # ---- rewriting -----------------------------------------------------------------------------------------
+    def replace(self, old, new, count=-1):
+        if count != -1:
+            raise Undecided('str.replace with count')
+        old_i = _items_of(old); new_i = _items_of(new)
+        n = len(old_i)
+        if n == 0:
+            raise Undecided('replace of empty pattern')
+        out = []
+        i = 0
+        items = self.items
+        while i < len(items):
+            if i + n <= len(items):
+                conds = [_char_eq(a, b) for a, b in zip(items[i:i + n], old_i)]
+                if not any(c is False for c in conds):
+                    cs = [c for c in conds if c is not True]
+                    if not cs or bool(mkbool(z3.And(*cs))):
+                        out.extend(new_i)
+                        i += n
+                        continue
+            out.append(items[i])
+            i += 1
+        return mk(out)
+
+    def _case(self, upper):
+        out = []
+        for it in self.items:
+            if isinstance(it, str):
+                out.append(it.upper() if upper else it.lower())
+            elif it.base == 16:
+                out.append(Dig(16, it.t, upper, it.src))
+            else:
+                out.append(it)
+        return mk(out)
+    def lower(self): return self._case(False)
+    def casefold(self): return self._case(False)
+    def upper(self): return self._case(True)
+    def strip(self, chars=None):
+        if chars is not None:
+            raise Undecided('strip(chars)')
+        items = list(self.items)
+        while items and isinstance(items[0], str) and items[0].isspace(): items.pop(0)
+        while items and isinstance(items[-1], str) and items[-1].isspace(): items.pop()
+        return mk(items)
+    def split(self, sep=None, maxsplit=-1):
+        if sep is None or maxsplit != -1:
+            raise Undecided('split without literal separator')
+        sep_i = _items_of(sep)
+        if len(sep_i) != 1:
+            raise Undecided('multi-char split')
+        parts = [[]]
+        for it in self.items:
+            c = _char_eq(it, sep_i[0])
+            if c is True or (c is not False and bool(mkbool(c))):
+                parts.append([])
+            else:
+                parts[-1].append(it)
+        return [mk(p) for p in parts]
+
+    # anything else on str would silently use the poison payload: block the common ones
+    def _no(self, *a, **k): raise Undecided('unsupported str method on a symbolic string')
+    format = join = encode = zfill = rjust = ljust = center = count = index = rfind = partition = rpartition = \
+        splitlines = isdigit = isalpha = isalnum = title = capitalize = swapcase = translate = expandtabs = lstrip = rstrip = _no
+
+
+def _char_eq(a, b):
+    """True / False / z3 condition for two string items being the same character"""
+    if isinstance(a, str) and isinstance(b, str):
+        return a == b
+    if isinstance(a, str):
+        a, b = b, a
+    if isinstance(b, str):
+        v = a.value_of_char(b)
+        if v is None:
+            return False
+        return z3.simplify(a.t == v)
+    # two symbolic digits
+    if a.base == b.base and (a.base == 2 or a.upper == b.upper):
+        return z3.simplify(a.t == b.t)
+    # mixed alphabets: equal only on the common characters 0-9 (and 0/1)
+    lim = 2 if 2 in (a.base, b.base) else 10
+    return z3.simplify(z3.And(a.t == b.t, a.t < lim))
+
+
+# ----------------------------------------------------------------------------------------------------------
+# conversions used by the shims
+# ----------------------------------------------------------------------------------------------------------
+def _slice_of_source(items, base):
+    """If items are (literal zeros followed by) consecutive digits hi..lo of one source term p, return the Int
+    term (p div base^lo) mod base^(hi-lo+1) -- pure integer arithmetic on p instead of a fresh digit sum."""
+    k = 0
+    while k < len(items) and isinstance(items[k], str) and items[k] == '0':
+        k += 1
+    digs = items[k:]
+    if not digs:
+        return z3.IntVal(0)
+    if not all(isinstance(d, Dig) and d.base == base and d.src is not None for d in digs):
+        return None
+    p, hi = digs[0].src
+    for j, d in enumerate(digs):
+        if d.src[0] is not p and d.src[0].get_id() != p.get_id():
+            return None
+        if d.src[1] != hi - j:
+            return None
+    lo = hi - len(digs) + 1
+    q = core.CTX.div(p, base ** lo) if lo > 0 else p
+    full = getattr(digs[0], 'src', None)
+    width = core.CTX.width_hint.get(q.get_id())
+    m = base ** (hi - lo + 1)
+    # when p is known to be below base^(hi+1) and lo == 0 the slice is p itself
+    if lo == 0 and core.CTX.valid(z3.And(p >= 0, p < m)):
+        return p
+    return core.CTX.mod(q, m)
+
+
+def _digits_value(items, base):
+    """Int term of the numeral formed by items (all digits of `base`), MSB first"""
+    fast = _slice_of_source(list(items), base)
+    if fast is not None:
+        return z3.simplify(fast)
+    t = z3.IntVal(0)
+    for it in items:
+        if isinstance(it, str):
+            if it == '_':
+                raise Undecided('underscore in numeral')
+            try:
+                d = builtins.int(it, base)
+            except ValueError:
+                raise ValueError("invalid literal for int() with base %d" % base)
+            dt = z3.IntVal(d)
+        else:
+            if it.base == 2 and base in (2, 16, 10, 8):
+                dt = it.t
+            elif it.base == 16 and base == 16:
+                dt = it.t
+            elif it.base == 16 and base == 2:
+                # a hex digit character is a valid binary digit only when it is 0/1
+                if not core.CTX.valid(it.t <= 1):
+                    raise Undecided('hex digit parsed in base 2')
+                dt = it.t
+            else:
+                raise Undecided('digit of base %d parsed in base %d' % (it.base, base))
+        t = t * base + dt
+    return z3.simplify(t)
+
+
+def int_of(x, base=10, *a, **k):
+    if a or k:
+        raise Undecided('int() extra args')
+    if isinstance(base, (SNum, SBool)):
+        raise Undecided('symbolic base')
+    items = list(x.items)
+    while items and isinstance(items[0], str) and items[0].isspace(): items.pop(0)
+    while items and isinstance(items[-1], str) and items[-1].isspace(): items.pop()
+    sign = 1
+    if items and isinstance(items[0], str) and items[0] in '+-':
+        sign = -1 if items[0] == '-' else 1
+        items = items[1:]
+    if base in (2, 16, 8) and len(items) >= 2 and isinstance(items[0], str) and items[0] == '0' and isinstance(items[1], str) \
+            and items[1].lower() == {2: 'b', 16: 'x', 8: 'o'}[base]:
+        items = items[2:]
+    if not items:
+        raise ValueError('invalid literal for int()')
+    core.CTX.assumed_used.add('python: int(str, base) is the positional value of the digit string')
+    t = _digits_value(items, base)
+    return SNum(z3.simplify(t * sign))
+
+
+def float_of(x):
+    raise Undecided('float() of a symbolic string')
+
+
+def np_binary_repr(num, width=None):
+    """numpy.binary_repr: for width given, the width-character two's complement image"""
+    if not isinstance(num, (SNum, SBool)):
+        return _np.binary_repr(num, width=width)
+    if isinstance(num, SBool):
+        num = SNum(core.zint(num))
+    if not num.isint:
+        raise TypeError("binary_repr of a float")
+    if width is None:
+        raise Undecided('np.binary_repr of a symbolic int without width')
+    core.CTX.assumed_used.add('numpy: binary_repr(x, width) is the width-bit two\'s complement image of x (MSB first)')
+    w = builtins.int(width)
+    t = num.t
+    ok = z3.And(t >= -(1 << (w - 1)) if w > 0 else t >= 0, t < (1 << w))
+    if not core.CTX.valid(ok):
+        if not core.CTX.decide(ok):
+            raise ValueError('Insufficient bit width=%d provided for binwidth' % w)
+    p = core.CTX.mod(t, 1 << w) if w > 0 else z3.IntVal(0)
+    bits = core.CTX.bits(p, w)
+    return mk([Dig(2, bits[i], True, (p, i)) for i in range(w - 1, -1, -1)])
+
+
+def np_base_repr(number, base=2, padding=0):
+    if not isinstance(number, (SNum, SBool)):
+        return _np.base_repr(number, base=base, padding=padding)
+    raise Undecided('np.base_repr of a symbolic int (variable length numeral)')
+
+
+def bin_of(x):
+    """python bin(x) for x >= 0 symbolic: forks on the bit length"""
+    t = x.t
+    core.CTX.assumed_used.add('python: bin(x) is "0b" + the minimal binary numeral of x')
+    if core.CTX.decide(t < 0):
+        raise Undecided('bin() of a negative symbolic int')
+    if core.CTX.decide(t == 0):
+        return '0b0'
+    for L in range(1, 400):
+        if core.CTX.decide(t < (1 << L)):
+            bits = core.CTX.bits(t, L)
+            return mk(['0', 'b'] + [Dig(2, bits[i], True, (t, i)) for i in range(L - 1, -1, -1)])
+    raise Undecided('bin(): more than 400 bits')
+
+
+def hex_of(x):
+    raise Undecided('hex() of a symbolic int (variable length)')
+
+
+def format_(template, args, kw):
+    """'{0:0{1}X}'.format(x, width) with symbolic x; anything else with symbolic arguments is undecided"""
+    if template == '{0:0{1}X}' and len(args) == 2 and not kw:
+        x, width = args
+        if isinstance(x, SNum) and isinstance(width, builtins.int):
+            core.CTX.assumed_used.add("python: '{0:0{1}X}'.format(x, w) is the upper-case hex numeral of x zero-padded to w digits")
+            t = x.t
+            if core.CTX.decide(t < 0):
+                raise Undecided('hex format of a negative symbolic int')
+            w = width
+            if not core.CTX.valid(t < (16 ** w)):
+                if not core.CTX.decide(t < (16 ** w)):
+                    raise Undecided('hex numeral longer than the requested width')
+            digs = []
+            for j in range(w - 1, -1, -1):
+                q = core.CTX.div(t, 16 ** j) if j > 0 else t
+                digs.append(Dig(16, core.CTX.mod(q, 16), True, (t, j)))
+            return mk(digs)
+    # error messages and the like: symbolic parts are rendered as a placeholder only if no SStr/SNum must be exact
+    if any(isinstance(a, SStr) for a in list(args) + list(kw.values())):
+        raise Undecided('str.format with a symbolic string argument')
+    safe_args = ['<symbolic>' if isinstance(a, (SNum, SBool)) else a for a in args]
+    safe_kw = {k: ('<symbolic>' if isinstance(v, (SNum, SBool)) else v) for k, v in kw.items()}
+    try:
+        return template.format(*safe_args, **safe_kw)
+    except Exception:
+        return '<message with symbolic values>'
+
+
+def set_of(x):
+    """set(symbolic string): the set of characters that MAY occur (over-approximation, used for validity checks)"""
+    out = builtins.set()
+    for it in x.items:
+        if isinstance(it, str):
+            out.add(it)
+        else:
+            out.update(it.alphabet())
+    return out
+
+
+def concretise(x, model):
+    out = []
+    for it in x.items:
+        if isinstance(it, str):
+            out.append(it)
+        else:
+            v = core.zval(model.eval(it.t, model_completion=True))
+            a = it.alphabet()
+            out.append(a[v] if 0 <= v < len(a) else '?')
+    return ''.join(out)
